@@ -127,6 +127,10 @@ def _settings(st, kind):
         return st.NLDFSettingsVK("MGGA", th, "one", [[2.0, 0.0, 0.04], [1.0, 0.0, 0.03]], "exponential"), "nldf"
     if kind == "fl":
         return st.FracLaplSettings([0.0, 0.5, 1.0], 3, 1, [(-1, 0), (0, 0)]), "nlof"
+    if kind == "fl_d":
+        return st.FracLaplSettings([0.0, 0.5, 1.0], 2, 1, [(0, 0)], nd1=2, ld_dots=[(1, 1), (-1, 0)], ndd=2), "nlof"
+    if kind == "fl_d2":
+        return st.FracLaplSettings([0.5, 1.0], 1, 0, [], nd1=1, ld_dots=[(0, 0)], ndd=1), "nlof"
     if kind == "sadm":
         return st.SADMSettings("smooth"), "sdmx"
     if kind == "sdmx":
@@ -142,7 +146,7 @@ def _settings(st, kind):
     raise ValueError(kind)
 
 
-KINDS = ["vj", "vj_expnt", "vj_gga", "vi", "vij", "vk", "fl", "sadm", "sdmx", "sdmxg", "sdmx1", "sdmxg1", "sdmxfull"]
+KINDS = ["vj", "vj_expnt", "vj_gga", "vi", "vij", "vk", "fl", "fl_d", "fl_d2", "sadm", "sdmx", "sdmxg", "sdmx1", "sdmxg1", "sdmxfull"]
 
 
 def h_recommended(env, kind, slmode):
